@@ -129,6 +129,29 @@ struct __redu_list {
   T *data;
   size_t size;
   __redu_list() : data(nullptr), size(0) {}
+  // The list owns its buffer: copies are deep and the buffer is released with
+  // the list (temporaries and loop-local lists would leak otherwise).
+  __redu_list(const __redu_list &other) : data(nullptr), size(other.size) {
+    if (size > 0) {
+      data = new T[size];
+      for (size_t i = 0; i < size; ++i) {
+        data[i] = other.data[i];
+      }
+    }
+  }
+  __redu_list &operator=(const __redu_list &other) {
+    if (this != &other) {
+      T *next = other.size ? new T[other.size] : nullptr;
+      for (size_t i = 0; i < other.size; ++i) {
+        next[i] = other.data[i];
+      }
+      delete[] data;
+      data = next;
+      size = other.size;
+    }
+    return *this;
+  }
+  ~__redu_list() { delete[] data; }
 };
 
 template <typename T>
